@@ -231,6 +231,7 @@ def drift_check(ctx, traces, batches, tag, stats):
 # ------------------------------------------------------------------------------------------------ run
 def run(ctx):
     T = ctx.thorough
+    os.environ.setdefault("JAVA_TOOL_OPTIONS", "-Xmx3g")      # many TLC processes run side by side: bound each JVM
     binary = ctx.build_harness("c08")
     sd = ctx.spec_dir(SPEC)
     ctx.cov["rule"] = ("case = (old tree, payload, verb, endpoint, one injected failure); cases = terminal states of the bounded "
@@ -252,25 +253,31 @@ def run(ctx):
     def stage(job):
         kind, arg = job
         if kind == "mc":
-            return ctx.tlc_exhaustive(sd, "MC_C08", arg, timeout=1500, label="I=>P, all cases x all interleavings of probes")
+            return ctx.tlc_exhaustive(sd, "MC_C08", arg, timeout=1500, heap="4g", workers=(8 if T else 6),
+                                      label="I=>P, all cases x all interleavings of probes")
         if kind == "nv":
-            return ctx.tlc(sd, "MC_C08", "MC_nv_%s.cfg" % arg, workers=2, timeout=600, label="non-vacuity: %s must be refuted" % arg)
+            return ctx.tlc(sd, "MC_C08", "MC_nv_%s.cfg" % arg, workers=2, timeout=600, heap="1g",
+                           label="non-vacuity: %s must be refuted" % arg)
         if kind == "rand":     # the seeded random cases do not depend on TLC's output: record them meanwhile
             return run_batches(ctx, binary, arg, "rand")
-        return ctx.tlc(sd, "GenC08", arg, workers=4, timeout=900, label="case generation")
+        return ctx.tlc(sd, "GenC08", arg, workers=4, timeout=900, heap="3g", label="case generation")
     flags = ["RestoreWrongDirection", "PublishBeforeInit", "ContinueAfter405", "ApplyNoBackup"]
-    nr = 180 if not T else 6000
+    nr = 180 if not T else 4000
     rc = [rand_case(ctx.rng, T, endpoints) for _ in range(nr)]
     rbatches = batches_of(rc, 4 if not T else 8)
     jobs = [("mc", "MC_quick.cfg" if not T else "MC_thorough.cfg")] + [("nv", f) for f in flags] + \
-           [("rand", rbatches), ("gen", "GenC08.cfg" if not T else "GenC08_thorough.cfg")]
+           [("rand", rbatches), ("gen", "GenC08.cfg" if not T else "GenC08_full.cfg")]
     if T:
         jobs.insert(1, ("mc", "MC_thorough3.cfg"))
+        jobs.insert(2, ("gen", "GenC08_thorough.cfg"))
     res = parallel(stage, jobs, n=len(jobs))
     for (kind, arg), r in zip(jobs, res):
         if kind == "nv" and r.violated is None:
             raise Broken("model cannot tell deviation %s from the property (vacuous refinement check): %r" % (arg, r))
     g, rtraces = res[-1], res[-2]
+    for (kind, arg), r in zip(jobs, res):
+        if kind == "gen" and not r.ok:
+            raise Broken("case generation %s failed: %r" % (arg, r))
     outs = tlc_vh_lines(g.out)
     if len(outs) < 1000:
         raise Broken("case generation produced %d outcomes: %s" % (len(outs), g.out[-1500:]))
@@ -284,9 +291,21 @@ def run(ctx):
     rng = random.Random(ctx.seed)
     rng.shuffle(gen)
     rng.shuffle(health)
-    ngen = 420 if not T else min(len(gen), 24000)
+    ngen = 420 if not T else len(gen)
     sel = gen[:ngen]
-    ctx.cov["exhaustive"] = bool(T) and ngen == len(gen)
+    ctx.cov["exhaustive"] = bool(T)       # thorough: every case of the two-flow instance (GenC08_full.cfg) is replayed
+    if T:                                  # plus a seeded sample of the three-flow instance
+        o3 = tlc_vh_lines(res[2].out)
+        c3 = {}
+        for o in o3:
+            c = from_model(o)
+            if (c.get("fault") or {}).get("point") != "health":
+                c3.setdefault(case_key(c), c)
+                predicted.setdefault(case_key(c), (c, []))[1].append(o)
+        extra = [c3[k] for k in sorted(c3) if k not in {case_key(x) for x in sel[:0]}]
+        rng.shuffle(extra)
+        sel = sel + extra[:4000]
+        ctx.log("three-flow instance: %d cases generated, %d sampled" % (len(c3), min(4000, len(extra))))
     # (3) code -> spec: seeded random cases over a wider universe (three flows, quota / path-parameter files, several bad files,
     #     other verbs, concurrent probe goroutines), recorded and validated together with the generated ones
     ctx.log("TLC generated %d outcomes / %d cases; replaying %d of them + %d seeded random cases + %d health-check failures" % (
